@@ -78,8 +78,17 @@ def shard(shard_i, nshards, payload):
             files, fault = make_set(rng, payload["avoid"])
             d = os.path.join(tmp, "s%d" % i)
             os.makedirs(d)
-            for n_, t in files:
-                open(os.path.join(d, n_), "w").write(t)
+            linked = rng.randrange(len(files)) if rng.random() < 0.35 else None
+            for k_, (n_, t) in enumerate(files):
+                if k_ == linked:
+                    # the source lives elsewhere and is linked into the directory
+                    os.makedirs(os.path.join(tmp, "elsewhere%d" % i), exist_ok=True)
+                    real = os.path.join(tmp, "elsewhere%d" % i, n_)
+                    open(real, "w").write(t)
+                    os.symlink(real, os.path.join(d, n_))
+                    res.count("symlinked-source")
+                else:
+                    open(os.path.join(d, n_), "w").write(t)
             paths = [os.path.join(d, n_) for n_, _ in files]
             expect_fail = fault != "none"
             # ---- check: files in several orders, the directory, a mixture, a duplicated argument
@@ -149,6 +158,7 @@ def shard(shard_i, nshards, payload):
                     elif not vs:
                         res.distinct.add(core.key_of(cmd, name, fault, i))
             shutil.rmtree(d, ignore_errors=True)
+            shutil.rmtree(os.path.join(tmp, "elsewhere%d" % i), ignore_errors=True)
         # ---- odd paths (every shard runs its slice of a small fixed list)
         odd = []
         base = os.path.join(tmp, "odd")
